@@ -496,7 +496,13 @@ pub fn audit() -> Vec<String> {
                 Own::Lowered(..) => !(it.kind == Kind::R && it.taken),
             };
             if bad {
-                out.push(format!("!item-ledger{c}:{id}:{:?}:{}", it.own, it.taken as u8).replace(' ', ""));
+                let own = match it.own {
+                    Own::Rust => "rust",
+                    Own::Lowered(..) => "lowered",
+                    Own::Released => "released",
+                    Own::Dropped => "dropped",
+                };
+                out.push(format!("!item-ledger{c}:{id}:{own}:{}", it.taken as u8));
             }
         }
     });
